@@ -923,6 +923,66 @@ func runR39(c *Ctx) {
 				}
 			}
 		})
+		// clause (b): a list of names handed in by the caller that is matched against the frame's column names as a
+		// set (membership of namedColumn.name in a set built from the parameter) selects columns silently: a name
+		// that matches nothing must be reported like in every sibling operation, so the same parameter must reach a
+		// validation (a unit whose validated slice is the parameter)
+		for _, prm := range fn.Params {
+			sl, ok := prm.Type().Underlying().(*types.Slice)
+			if !ok {
+				continue
+			}
+			if b, ok := sl.Elem().Underlying().(*types.Basic); !ok || b.Kind() != types.String {
+				continue
+			}
+			matched := ""
+			for _, r := range *prm.Referrers() {
+				call, ok := r.(*ssa.Call)
+				if !ok {
+					continue
+				}
+				if _, isMap := call.Type().Underlying().(*types.Map); !isMap {
+					continue
+				}
+				// the set's uses: a call (Contains) or a comma-ok lookup whose key is a column's name field
+				for _, u := range *call.Referrers() {
+					var keyV ssa.Value
+					switch t := u.(type) {
+					case *ssa.Call:
+						for _, a := range t.Call.Args {
+							if a != ssa.Value(call) {
+								keyV = a
+							}
+						}
+					case *ssa.Lookup:
+						keyV = t.Index
+					}
+					if keyV == nil {
+						continue
+					}
+					if fld, _ := fieldOf(keyV); fld != nil && fld.Type().Underlying() == types.Typ[types.String] {
+						if n, ok := fieldOwner(keyV); ok && n == "namedColumn" {
+							matched = p.instrPos(u)
+						}
+					}
+				}
+			}
+			if matched == "" {
+				continue
+			}
+			key := fnm + "|name list " + prm.Name()
+			validated := false
+			for _, u := range units {
+				if u.base == ssa.Value(prm) {
+					validated = true
+				}
+			}
+			if validated {
+				c.ok(key, p.pos(fn.Pos()), "the names matched against the columns are validated against the column map")
+			} else {
+				c.bad(key, matched, fmt.Sprintf("the names in %s select columns by set membership (at %s) but are never validated against the column map: a name that matches no column is silently ignored instead of being reported through Err", prm.Name(), matched))
+			}
+		}
 		if len(units) == 0 {
 			continue
 		}
@@ -955,6 +1015,30 @@ func runR39(c *Ctx) {
 				if returnsErrFrame(r) || guardedByErrField(r.Block()) || (u.base != nil && guardedByEmpty(r.Block(), u.base)) {
 					continue
 				}
+				// `if qf.Err != nil || len(columns) == 0 { return qf }`: every edge into the return block is the
+				// true edge of one of the two allowed tests
+				if everyEdgeInto(r.Block(), func(cond ssa.Value, val bool) bool {
+					cond, val = unNot(cond, val)
+					cmp, ok := cond.(*ssa.BinOp)
+					if !ok {
+						return false
+					}
+					for _, o := range []ssa.Value{cmp.X, cmp.Y} {
+						if fld, _ := fieldOf(o); fld != nil && fld.Name() == "Err" {
+							if cmp.Op == token.NEQ && val || cmp.Op == token.EQL && !val {
+								return true
+							}
+						}
+					}
+					if call, ok := cmp.X.(*ssa.Call); ok && u.base != nil && builtinName(call) == "len" && accessPath(call.Call.Args[0]) == accessPath(u.base) {
+						if k, ok := constInt(cmp.Y); ok && k == 0 && (cmp.Op == token.EQL && val || cmp.Op == token.NEQ && !val) {
+							return true
+						}
+					}
+					return false
+				}) {
+					continue
+				}
 				bad = p.instrPos(r)
 			}
 			if bad != "" {
@@ -964,6 +1048,49 @@ func runR39(c *Ctx) {
 			}
 		}
 	}
+}
+
+// everyEdgeInto: every edge into b is a branch edge whose (condition, outcome) satisfies ok.
+func everyEdgeInto(b *ssa.BasicBlock, ok func(cond ssa.Value, val bool) bool) bool {
+	if len(b.Preds) == 0 {
+		return false
+	}
+	for _, pd := range b.Preds {
+		if len(pd.Instrs) == 0 {
+			return false
+		}
+		iff, isIf := pd.Instrs[len(pd.Instrs)-1].(*ssa.If)
+		if !isIf {
+			return false
+		}
+		good := false
+		for si, val := range []bool{true, false} {
+			if pd.Succs[si] == b && ok(iff.Cond, val) {
+				good = true
+			}
+		}
+		if !good {
+			return false
+		}
+	}
+	return true
+}
+
+// fieldOwner: the name of the struct type whose field v is a load of.
+func fieldOwner(v ssa.Value) (string, bool) {
+	switch t := v.(type) {
+	case *ssa.UnOp:
+		if fa, ok := t.X.(*ssa.FieldAddr); ok {
+			if n, ok := deref(fa.X.Type()).(*types.Named); ok {
+				return n.Obj().Name(), true
+			}
+		}
+	case *ssa.Field:
+		if n, ok := t.X.Type().(*types.Named); ok {
+			return n.Obj().Name(), true
+		}
+	}
+	return "", false
 }
 
 // precedesBlock: a can reach b (a is on some path before b).
